@@ -252,7 +252,7 @@ def split_cases(lines):
     return cases
 
 
-def run_impl(harness, ops_lines, timeout, tag):
+def run_impl(harness, ops_lines, timeout, tag, prop=None):
     """Run the real code on the op lines.  Survives crashes/hangs: the culprit case is recorded and
     the run resumes after it.  Returns (result_lines aligned with ops_lines, oracle_msgs, crashes)."""
     os.makedirs(WORK, exist_ok=True)
@@ -278,7 +278,10 @@ def run_impl(harness, ops_lines, timeout, tag):
             for l in open(of, errors='replace'):
                 m = re.match(r'ORACLE case=(-?\d+) line=(\d+) (.*)', l.rstrip('\n'))
                 if m:
-                    oracle.append((int(m.group(1)), m.group(3)))
+                    # an engine serving several properties prefixes its oracle messages with the property id
+                    pm = re.match(r'(C\d+): ', m.group(3))
+                    if prop is None or pm is None or pm.group(1) == prop:
+                        oracle.append((int(m.group(1)), m.group(3)))
             os.remove(of)
         if rc == 0:
             results += olines
@@ -360,7 +363,7 @@ class Failure:
 
 def evaluate_case(cfg, harness, ops, timeout=30):
     """Run one case on both sides; returns (mismatch lines, oracle msgs, crashes, impl, model)."""
-    impl, oracle, crashes = run_impl(harness, ops, timeout, 'ev')
+    impl, oracle, crashes = run_impl(harness, ops, timeout, 'ev', cfg.get('pid'))
     model, merr = run_model(cfg['engine'], ops, cfg.get('model_args'))
     if model is None:
         return [0], oracle, crashes, impl, ['MODEL-ERROR ' + merr]
